@@ -13,37 +13,37 @@ import (
 
 // Roles are the anchors of the scheduling rules, resolved by what the code does (DESIGN.md 3.2).
 type Roles struct {
-	w          *World
-	la         *lockAnalysis
-	Root       *ssa.Package
-	Accept     *ssa.Function // exported method returning (*PipelineJob, error)
-	Start      *ssa.Function // stores a non-nil value to PipelineJob.Start
-	StartGo    *ssa.Function // goroutine closure spawned by Start
-	Admit      *ssa.Function // returns the action enum, reads Concurrency
-	Count      *ssa.Function // callee compared with Concurrency
-	RunPred    *ssa.Function // per-job running predicate
-	PipeRunning *ssa.Function // ∃ running job of a pipeline (bool)
-	DequeueDecision *ssa.Function // action for a queued job
-	Dequeue    []*ssa.Function // functions that start jobs taken from the wait list
-	Completed  *ssa.Function // stores Completed = true
-	CancelInt  *ssa.Function // internal cancel
-	CancelAPI  *ssa.Function // exported cancel
-	Expiry     *ssa.Function // delay-expiry handler
-	MarkCanceled *ssa.Function
-	Shutdown   *ssa.Function
-	Save       *ssa.Function
-	Load       *ssa.Function
-	Replace    *ssa.Function // ReplaceDefinitions
-	Persist    *ssa.Function // requestPersist
-	TaskChange *ssa.Function
-	StageChange *ssa.Function
-	GraphBuild *ssa.Function
-	ActionT    *types.Named
-	Actions    map[string]int64 // constant name → value
-	ActionName map[int64]string
+	w               *World
+	la              *lockAnalysis
+	Root            *ssa.Package
+	Accept          *ssa.Function   // exported method returning (*PipelineJob, error)
+	Start           *ssa.Function   // stores a non-nil value to PipelineJob.Start
+	StartGo         *ssa.Function   // goroutine closure spawned by Start
+	Admit           *ssa.Function   // returns the action enum, reads Concurrency
+	Count           *ssa.Function   // callee compared with Concurrency
+	RunPred         *ssa.Function   // per-job running predicate
+	PipeRunning     *ssa.Function   // ∃ running job of a pipeline (bool)
+	DequeueDecision *ssa.Function   // action for a queued job
+	Dequeue         []*ssa.Function // functions that start jobs taken from the wait list
+	Completed       *ssa.Function   // stores Completed = true
+	CancelInt       *ssa.Function   // internal cancel
+	CancelAPI       *ssa.Function   // exported cancel
+	Expiry          *ssa.Function   // delay-expiry handler
+	MarkCanceled    *ssa.Function
+	Shutdown        *ssa.Function
+	Save            *ssa.Function
+	Load            *ssa.Function
+	Replace         *ssa.Function // ReplaceDefinitions
+	Persist         *ssa.Function // requestPersist
+	TaskChange      *ssa.Function
+	StageChange     *ssa.Function
+	GraphBuild      *ssa.Function
+	ActionT         *types.Named
+	Actions         map[string]int64 // constant name → value
+	ActionName      map[int64]string
 	StrategyReplace int64
-	Errs       []string
-	alwaysMemo map[*ssa.Function]int
+	Errs            []string
+	alwaysMemo      map[*ssa.Function]int
 }
 
 func (ro *Roles) fail(format string, a ...interface{}) {
@@ -339,10 +339,14 @@ func resolveRoles(w *World) *Roles {
 	}
 	// save: the function that builds store.PersistedData and calls the store's Save
 	for _, fn := range funcs {
-		if len(findCalls(fn, func(n string, c *ssa.CallCommon) bool { return c.IsInvoke() && c.Method.Name() == "Save" && strings.HasSuffix(c.Value.Type().String(), "store.DataStore") })) > 0 {
+		if len(findCalls(fn, func(n string, c *ssa.CallCommon) bool {
+			return c.IsInvoke() && c.Method.Name() == "Save" && strings.HasSuffix(c.Value.Type().String(), "store.DataStore")
+		})) > 0 {
 			ro.Save = fn
 		}
-		if len(findCalls(fn, func(n string, c *ssa.CallCommon) bool { return c.IsInvoke() && c.Method.Name() == "Load" && strings.HasSuffix(c.Value.Type().String(), "store.DataStore") })) > 0 {
+		if len(findCalls(fn, func(n string, c *ssa.CallCommon) bool {
+			return c.IsInvoke() && c.Method.Name() == "Load" && strings.HasSuffix(c.Value.Type().String(), "store.DataStore")
+		})) > 0 {
 			ro.Load = fn
 		}
 	}
